@@ -629,6 +629,31 @@ pub mod implementations {
         Ok(())
     }
 
+    /// Verification hook: the name of the run-time kind of a value, looking
+    /// through element pointers and present optionals.
+    #[cfg(mscript_verif)]
+    fn verif_kind_name(value: &Primitive) -> &'static str {
+        match value {
+            Primitive::Bool(_) => "bool",
+            Primitive::Str(_) => "str",
+            Primitive::Int(_) => "int",
+            Primitive::BigInt(_) => "bigint",
+            Primitive::Float(_) => "float",
+            Primitive::Byte(_) => "byte",
+            Primitive::Function(_) | Primitive::BuiltInFunction(_) => "fn",
+            Primitive::Vector(_) => "list",
+            Primitive::Object(_) => "obj",
+            Primitive::Module(_) => "module",
+            Primitive::Map(_) => "map",
+            Primitive::Optional(None) => "nil",
+            Primitive::Optional(Some(inner)) => verif_kind_name(inner),
+            Primitive::HeapPrimitive(hp) => match hp.to_owned_primitive() {
+                Ok(inner) => verif_kind_name(&inner),
+                Err(_) => "nil",
+            },
+        }
+    }
+
     #[inline(always)]
     pub(crate) fn printn(ctx: &mut Ctx, args: &[String]) -> Result<()> {
         let Some(arg) = args.first() else {
@@ -644,6 +669,11 @@ pub mod implementations {
             log::warn!(
                 "The `printn` instruction should not be used. Favor the standard library instead."
             );
+
+            #[cfg(mscript_verif)]
+            if std::env::var_os("MSCRIPT_VERIF_TYPED_PRINT").is_some() {
+                print!("{}:", verif_kind_name(first));
+            }
 
             print!("{first}");
             let operating_stack = ctx.get_local_operating_stack();
